@@ -694,3 +694,204 @@ impl SB {
         }
     }
 }
+
+// =============================================================================================
+// forms over up to 32 variables: pointwise evaluation of a description and generators whose
+// operator results stay small (the De Morgan product of `!` is exponential in the operand)
+
+impl SB {
+    pub fn eval_at(&self, m: u64) -> bool {
+        match self {
+            SB::Zero => false,
+            SB::One => true,
+            SB::NthVar(v) => (m >> v) & 1 != 0,
+            SB::NthVarInv(v) => (m >> v) & 1 == 0,
+            SB::FromCubes(cs) => cs.iter().any(|c| c.model().value(m)),
+            SB::FromLut(t, _) => t.get((m as usize) & (t.size() - 1)),
+            SB::And(a, b, _) => a.eval_at(m) && b.eval_at(m),
+            SB::Or(a, b, _) => a.eval_at(m) || b.eval_at(m),
+            SB::Not(a, _) => !a.eval_at(m),
+        }
+    }
+    /// the cubes given to from_cubes anywhere in the description (for constructed assignments)
+    pub fn leaf_cubes(&self, out: &mut Vec<CubeM>) {
+        match self {
+            SB::FromCubes(cs) => out.extend(cs.iter().map(|c| c.model())),
+            SB::NthVar(v) => out.push(CubeM::lit(*v, true)),
+            SB::NthVarInv(v) => out.push(CubeM::lit(*v, false)),
+            SB::And(a, b, _) | SB::Or(a, b, _) => {
+                a.leaf_cubes(out);
+                b.leaf_cubes(out);
+            }
+            SB::Not(a, _) => a.leaf_cubes(out),
+            _ => {}
+        }
+    }
+}
+
+impl XB {
+    pub fn eval_at(&self, m: u64) -> bool {
+        match self {
+            XB::Zero => false,
+            XB::One => true,
+            XB::NthVar(v) => (m >> v) & 1 != 0,
+            XB::NthVarInv(v) => (m >> v) & 1 == 0,
+            XB::FromCubes(cs) => cs.iter().fold(false, |acc, c| acc ^ c.model().value(m)),
+            XB::FromLut(t, _) => t.get((m as usize) & (t.size() - 1)),
+            XB::Xor(a, b, _) => a.eval_at(m) ^ b.eval_at(m),
+            XB::Not(a, _) => !a.eval_at(m),
+        }
+    }
+    pub fn leaf_cubes(&self, out: &mut Vec<CubeM>) {
+        match self {
+            XB::FromCubes(cs) => out.extend(cs.iter().map(|c| c.model())),
+            XB::NthVar(v) => out.push(CubeM::lit(*v, true)),
+            XB::NthVarInv(v) => out.push(CubeM::lit(*v, false)),
+            XB::Xor(a, b, _) => {
+                a.leaf_cubes(out);
+                b.leaf_cubes(out);
+            }
+            XB::Not(a, _) => a.leaf_cubes(out),
+            _ => {}
+        }
+    }
+}
+
+impl OB {
+    pub fn eval_at(&self, m: u64) -> bool {
+        match self {
+            OB::Zero => false,
+            OB::One => true,
+            OB::NthVar(v) => (m >> v) & 1 != 0,
+            OB::NthVarInv(v) => (m >> v) & 1 == 0,
+            OB::FromCubes(cs) => cs.iter().any(|c| c.model().value(m)),
+            OB::Or(a, b, _) => a.eval_at(m) || b.eval_at(m),
+        }
+    }
+    pub fn leaf_terms(&self, out: &mut Vec<EcubeM>) {
+        match self {
+            OB::FromCubes(cs) => out.extend(cs.iter().map(|c| c.model())),
+            OB::Or(a, b, _) => {
+                a.leaf_terms(out);
+                b.leaf_terms(out);
+            }
+            _ => {}
+        }
+    }
+}
+
+/// a variable index below n, biased towards the top of the range and the 16 / 32 boundaries
+pub fn arb_wide_var(n: usize) -> BoxedStrategy<usize> {
+    assert!(n >= 1);
+    let marks: Vec<usize> = [15usize, 16, 17, 30, 31].iter().copied().filter(|v| *v < n).collect();
+    let lo = n.saturating_sub(3);
+    if marks.is_empty() {
+        prop_oneof![3 => 0..n, 1 => Just(n - 1), 1 => lo..n].boxed()
+    } else {
+        prop_oneof![3 => 0..n, 1 => Just(n - 1), 1 => lo..n, 1 => proptest::sample::select(marks)].boxed()
+    }
+}
+
+/// a non-contradictory cube of at most `max_lits` literals over variables < n
+pub fn arb_small_cube(n: usize, max_lits: usize) -> BoxedStrategy<CB> {
+    vec((arb_wide_var(n), any::<bool>()), 0..=max_lits)
+        .prop_map(|lits| {
+            let mut seen = BTreeMap::new();
+            for (v, p) in lits {
+                seen.entry(v).or_insert(p);
+            }
+            let pos: Vec<usize> = seen.iter().filter(|(_, p)| **p).map(|(v, _)| *v).collect();
+            let neg: Vec<usize> = seen.iter().filter(|(_, p)| !**p).map(|(v, _)| *v).collect();
+            CB::FromVars(pos, neg)
+        })
+        .boxed()
+}
+
+/// Sop description over n (11..=32) variables whose operator results stay small: `!` only of
+/// lists of <= 3 cubes of <= 4 literals, `&` of small operands
+pub fn arb_sb_wide(n: usize) -> BoxedStrategy<SB> {
+    let small = prop_oneof![
+        2 => arb_wide_var(n).prop_map(SB::NthVar),
+        2 => arb_wide_var(n).prop_map(SB::NthVarInv),
+        1 => Just(SB::One),
+        1 => Just(SB::Zero),
+        8 => vec(arb_small_cube(n, 4), 0..=3).prop_map(SB::FromCubes),
+    ];
+    let negated = (small.clone(), 0u8..2).prop_map(|(a, f)| SB::Not(Box::new(a), f));
+    let general = arb_cube_list(n, 5).prop_map(|mut v| {
+        v.truncate(40);
+        SB::FromCubes(v)
+    });
+    let leaf = prop_oneof![6 => small, 3 => negated, 3 => general];
+    leaf.prop_recursive(3, 8, 2, |inner| {
+        prop_oneof![
+            2 => (inner.clone(), inner.clone(), 0u8..4).prop_map(|(a, b, f)| SB::And(Box::new(a), Box::new(b), f)),
+            3 => (inner.clone(), inner, 0u8..4).prop_map(|(a, b, f)| SB::Or(Box::new(a), Box::new(b), f)),
+        ]
+    })
+    .boxed()
+}
+
+/// Esop description over n (11..=32) variables
+pub fn arb_xb_wide(n: usize) -> BoxedStrategy<XB> {
+    let leaf = prop_oneof![
+        2 => arb_wide_var(n).prop_map(XB::NthVar),
+        2 => arb_wide_var(n).prop_map(XB::NthVarInv),
+        1 => Just(XB::One),
+        1 => Just(XB::Zero),
+        6 => vec(arb_small_cube(n, 5), 0..=5).prop_map(XB::FromCubes),
+        3 => arb_cube_list(n, 5).prop_map(|mut v| {
+            v.truncate(40);
+            XB::FromCubes(v)
+        }),
+    ];
+    leaf.prop_recursive(3, 10, 2, |inner| {
+        prop_oneof![
+            3 => (inner.clone(), inner.clone(), 0u8..4).prop_map(|(a, b, f)| XB::Xor(Box::new(a), Box::new(b), f)),
+            1 => (inner, 0u8..2).prop_map(|(a, f)| XB::Not(Box::new(a), f)),
+        ]
+    })
+    .boxed()
+}
+
+/// assignments (masked to n variables) at which a wide form is compared with its description:
+/// the generated ones, the constant and alternating ones, and for each given cube one satisfying
+/// assignment and one near miss (one literal falsified)
+pub fn wide_assignments(n: usize, generated: &[u32], cubes: &[CubeM]) -> Vec<u64> {
+    let mask: u64 = if n >= 32 { 0xffff_ffff } else { (1u64 << n) - 1 };
+    let mut out: Vec<u64> = generated.iter().map(|m| *m as u64 & mask).collect();
+    out.extend([0, mask, 0x5555_5555 & mask, 0xaaaa_aaaa & mask]);
+    for (k, c) in cubes.iter().take(24).enumerate() {
+        if let CubeM::Lits(l) = c {
+            let fill = generated.get(k % std::cmp::max(1, generated.len())).copied().unwrap_or(0) as u64;
+            let mut m = fill;
+            for (v, p) in l {
+                if *p {
+                    m |= 1 << v;
+                } else {
+                    m &= !(1u64 << v);
+                }
+            }
+            out.push(m & mask);
+            if let Some((v, _)) = l.iter().nth(k % std::cmp::max(1, l.len())) {
+                out.push((m ^ (1 << v)) & mask);
+            }
+        }
+    }
+    out
+}
+
+/// the same for XOR terms: an assignment making the term true and one making it false
+pub fn wide_assignments_terms(n: usize, generated: &[u32], terms: &[EcubeM]) -> Vec<u64> {
+    let mask: u64 = if n >= 32 { 0xffff_ffff } else { (1u64 << n) - 1 };
+    let mut out: Vec<u64> = generated.iter().map(|m| *m as u64 & mask).collect();
+    out.extend([0, mask, 0x5555_5555 & mask, 0xaaaa_aaaa & mask]);
+    for (k, t) in terms.iter().take(24).enumerate() {
+        let fill = generated.get(k % std::cmp::max(1, generated.len())).copied().unwrap_or(0) as u64 & mask;
+        out.push(fill);
+        if let Some(v) = t.vars.iter().nth(k % std::cmp::max(1, t.vars.len())) {
+            out.push((fill ^ (1 << v)) & mask);
+        }
+    }
+    out
+}
